@@ -192,6 +192,42 @@ pub fn overrunning_mask_family() -> Vec<Vec<u8>> {
     out
 }
 
+/// A dynamic array at a slot number beyond the 10 000 the tool recognises when pre-folded, accessed once with the hash
+/// computed at run time and once with the same hash as a literal (and the same for a slot below 10 000): what the
+/// literal is taken for must not depend on which access the type checker happens to see first.
+pub fn hashed_both_ways_family() -> Vec<Vec<u8>> {
+    let mut out = Vec::new();
+    for n in [5u64, 9_999, 10_000, 74_565, 1 << 32] {
+        let slot = U::from_u64(n);
+        let hash = crate::util::keccak_words(&[slot]);
+        let computed = |idx: u64, value: Vec<Tok>| -> Vec<Tok> {
+            let mut t = value;
+            t.extend(arrkey(slot));
+            t.extend([p(idx), o(op::ADD), o(op::SSTORE)]);
+            t
+        };
+        let literal = |idx: u64, value: Vec<Tok>| -> Vec<Tok> {
+            let mut t = value;
+            t.extend([pu(hash), p(idx), o(op::ADD), o(op::SSTORE)]);
+            t
+        };
+        let caller = vec![o(op::CALLER)];
+        let flag = vec![o(op::CALLVALUE), o(op::ISZERO)];
+        for (a, b) in [
+            (computed(1, caller.clone()), literal(2, flag.clone())),
+            (literal(2, flag.clone()), computed(1, caller.clone())),
+            (computed(1, flag.clone()), literal(1, caller.clone())),
+            (literal(0, caller.clone()), computed(0, caller.clone())),
+        ] {
+            let mut t = a;
+            t.extend(b);
+            t.push(o(op::STOP));
+            out.push(assemble(&t));
+        }
+    }
+    out
+}
+
 /// The programs of the two families above as bytecode (C01 and C03 run them too: rendering a recursive slot type
 /// must neither overflow the native stack nor loop).
 pub fn recursive_type_programs() -> Vec<Vec<u8>> {
@@ -570,6 +606,12 @@ impl Check for C02 {
                     let code = expand(&seq);
                     let bound = if tier.thorough() { 2 } else { 1 };
                     explore_and_record(ctx, "self_reference_programs", &code, bound, 20_000, &|| json!({"tokens": format!("{seq:?}"), "bytes": hex(&code)}));
+                }
+                for (i, code) in hashed_both_ways_family().into_iter().enumerate() {
+                    if i % 16 != c {
+                        continue;
+                    }
+                    explore_and_record(ctx, "hashed_both_ways_programs", &code, 1, 20_000, &|| json!({"bytes": hex(&code)}));
                 }
                 for (i, code) in overrunning_mask_family().into_iter().enumerate() {
                     if i % 16 != c {
